@@ -62,14 +62,16 @@ VARIABLES coll, part,           \* catalog: state of every incarnation / of its 
           ever, everP,          \* ghost: ids that have been in state created at some time
           allOlder, newestL,    \* ghost: older / newest ids over all listings so far
           cat0,                 \* the initial catalog (never changes; part of the plan)
-          hold, holdId,         \* stall of the collection watch goroutine: "off" -> "armed" (hold(id)) -> ["wait" (event written, not yet dispatched) ->] "in" (inside the callback) -> "done"
+          hold, holdId, holdAt, \* stall of the collection watch goroutine: "off" -> "armed" (hold(id)) -> ["wait" (event written, not yet dispatched) ->] "in" (inside the callback) -> "done";
+                                \* holdAt = number of reader steps done when the first write queued up behind the stall (-1: none yet)
           listRev,              \* catalog revision (= number of writes) at the latest collection listing of the shared EtcdOp
           nw, hist
 
 Ids == Slots \X (1..MaxInc)
-vars == <<cat0, coll, part, sub, pc, cbuf, pbuf, cpos, ppos, older, started, bad, added, droppedC, ever, everP, allOlder, newestL, hold, holdId, listRev, nw, hist>>
-view == <<cat0, coll, part, sub, pc, cbuf, pbuf, cpos, ppos, older, started, bad, added, droppedC, ever, everP, allOlder, newestL, hold, holdId, listRev, nw>>
-hv == <<hold, holdId, listRev>>
+vars == <<cat0, coll, part, sub, pc, cbuf, pbuf, cpos, ppos, older, started, bad, added, droppedC, ever, everP, allOlder, newestL, hold, holdId, holdAt, listRev, nw, hist>>
+view == <<cat0, coll, part, sub, pc, cbuf, pbuf, cpos, ppos, older, started, bad, added, droppedC, ever, everP, allOlder, newestL, hold, holdId, holdAt, listRev, nw>>
+hv == <<hold, holdId, holdAt, listRev>>
+RS == pc + (IF sub THEN 1 ELSE 0)             \* reader steps of the last task done so far
 NoId == <<"", 0>>
 
 \* cfg helpers
@@ -122,7 +124,7 @@ Init ==
                /\ started = {id \in NewestSet(L) : id[1] \in es} /\ bad = {}
                /\ newestL = {id \in NewestSet(L) : id[1] \in es}
                /\ added = {id \in Ids : part[id] \in PListed /\ coll[id] \notin {"none", "tombstone"} /\ id \notin OlderOf(L) /\ id[1] \in es}
-    /\ hold = "off" /\ holdId = NoId /\ listRev = 0
+    /\ hold = "off" /\ holdId = NoId /\ holdAt = -1 /\ listRev = 0
     /\ nw = 0 /\ hist = <<>>
 
 (* ---------------------------------------------------------------- what the collection watch does with one event *)
@@ -142,12 +144,15 @@ CEffect(g, e) == CEffectC(coll, g, e)
 HeldEvent(e) == e.id = holdId /\ e.st = "tombstone" /\ e.prev = "creating"
 
 (* ---------------------------------------------------------------- environment: catalog writes *)
-CEvent(id, st, prev) == IF CW THEN Append(cbuf, [id |-> id, st |-> st, prev |-> prev, rev |-> nw + 1]) ELSE cbuf
+\* revisions are kept only where the control switch reads them (otherwise 0: state-space reduction)
+RevOf(n) == IF SkipSeenByListing THEN n ELSE 0
+CEvent(id, st, prev) == IF CW THEN Append(cbuf, [id |-> id, st |-> st, prev |-> prev, rev |-> RevOf(nw + 1)]) ELSE cbuf
 PEvent(id, st) == IF PW THEN Append(pbuf, [id |-> id, st |-> st]) ELSE pbuf
 
 \* Plan generation with stalls: the running collection watch dispatches a write before the next plan step (that is what
 \* happens on the real code within milliseconds, and what the replay waits for) - unless its goroutine is held inside a
-\* callback.  Everywhere else dispatch is its own step (DrainC) or a barrier (Sync).
+\* callback; the release of the callback dispatches what has queued up.  Everywhere else dispatch is its own step (DrainC)
+\* or a barrier (Sync).
 Eager == StallSteps /\ ~WithDrain /\ Released /\ hold # "in"
 CDispatchAll(cl, buf) ==
     LET g == FoldLeft(LAMBDA x, e : CEffectC(cl, x, e), [s |-> started, b |-> bad, d |-> droppedC], SubSeq(buf, cpos + 1, Len(buf)))
@@ -163,6 +168,7 @@ CollWrite(kind, id, from, to) ==
     /\ IF Eager THEN CDispatchAll(coll', cbuf') ELSE UNCHANGED <<cpos, started, bad, droppedC>>
     \* an armed hold: the failing create has been written; eager: the watch is now inside its callback
     /\ hold' = IF hold = "armed" THEN (IF Eager THEN "in" ELSE "wait") ELSE hold
+    /\ holdAt' = IF hold = "in" /\ holdAt = -1 THEN RS ELSE holdAt
     /\ UNCHANGED <<holdId, listRev>>
 
 New(id) == /\ (IF id[2] = 1 THEN TRUE ELSE coll[<<id[1], id[2] - 1>>] \in CGone)
@@ -220,8 +226,8 @@ List == /\ pc = 2 /\ pc' = 3 /\ RStep("list")
               /\ droppedC' = droppedC \cup old
               /\ started' = started \cup go
               /\ bad' = bad \cup (go \cap ((allOlder \cup old) \ (droppedC \cup old)))
-        /\ listRev' = nw
-        /\ UNCHANGED <<sub, coll, part, cbuf, pbuf, cpos, ppos, added, ever, everP, hold, holdId, nw>>
+        /\ listRev' = RevOf(nw)
+        /\ UNCHANGED <<sub, coll, part, cbuf, pbuf, cpos, ppos, added, ever, everP, hold, holdId, holdAt, nw>>
 \* GetAllPartition with the filter that calls AddPartition
 PList == /\ pc = 3 /\ pc' = 4 /\ RStep("plist")
          /\ added' = added \cup PAddable(older, Sel[LastT])
@@ -242,7 +248,7 @@ DrainC ==
            g == CEffect([s |-> started, b |-> bad, d |-> droppedC], e)
        IN /\ started' = g.s /\ bad' = g.b /\ droppedC' = g.d
           /\ hold' = IF hold = "wait" /\ HeldEvent(e) THEN (IF Skipped(e) THEN "done" ELSE "in") ELSE hold
-    /\ UNCHANGED <<sub, coll, part, pc, cbuf, pbuf, ppos, older, added, ever, everP, allOlder, newestL, holdId, listRev, nw, hist>>
+    /\ UNCHANGED <<sub, coll, part, pc, cbuf, pbuf, ppos, older, added, ever, everP, allOlder, newestL, holdId, holdAt, listRev, nw, hist>>
 
 DrainP ==
     /\ WithDrain /\ Released /\ ppos < Len(pbuf)
@@ -272,14 +278,18 @@ Sync ==
 \* return until released.  Only where it orders something: another task's watch is running and the last task is starting.
 Hold(id) ==
     /\ StallSteps /\ hold = "off" /\ Early # {} /\ pc < 5 /\ nw < MaxW /\ coll[id] = "creating"
-    /\ hold' = "armed" /\ holdId' = id
+    /\ hold' = "armed" /\ holdId' = id /\ UNCHANGED holdAt
     /\ hist' = Append(hist, [op |-> "d", kind |-> "hold", c |-> id[1], i |-> id[2]])
     /\ UNCHANGED <<sub, coll, part, pc, cbuf, pbuf, cpos, ppos, older, started, bad, added, droppedC, ever, everP, allOlder, newestL, listRev, nw>>
-\* the held call returns: the watch goroutine goes on with the events that queued up behind it (DrainC / Sync / eagerly with the next write)
+\* the held call returns: the watch goroutine goes on with the events that queued up behind it (DrainC; in plan generation
+\* with stalls: eagerly - the replay waits until the queue has been handled before the next plan step)
 Release ==
     /\ hold = "in" /\ hold' = "done"
+    \* reduction (plans): a stall orders something only if a write queued up behind it and the last task took a step after that
+    /\ (StallSteps /\ ~WithDrain) => (holdAt >= 0 /\ RS > holdAt)
     /\ hist' = Append(hist, [op |-> "d", kind |-> "release", c |-> "", i |-> 0])
-    /\ UNCHANGED <<sub, coll, part, pc, cbuf, pbuf, cpos, ppos, older, started, bad, added, droppedC, ever, everP, allOlder, newestL, holdId, listRev, nw>>
+    /\ IF StallSteps /\ ~WithDrain THEN CDispatchAll(coll, cbuf) ELSE UNCHANGED <<cpos, started, bad, droppedC>>
+    /\ UNCHANGED <<sub, coll, part, pc, cbuf, pbuf, ppos, older, added, ever, everP, allOlder, newestL, holdId, holdAt, listRev, nw>>
 
 Next == /\ IF hold = "armed" THEN Write
            ELSE Write \/ Sub \/ OpenC \/ OpenP \/ List \/ PList \/ StartW \/ DrainC \/ DrainP \/ Sync \/ Release \/ (\E id \in Ids : Hold(id))
